@@ -241,6 +241,29 @@ EXTRA = {
     "C20": "Also: the SARIF tool detection reads every run of every input (no swallowing handler around the loop), on which the duplicate-tool status depends.",
 }
 
+# clauses added after the fifth round (DESIGN.md 11.15)
+EXTRA5 = {
+    "C03": "Round 5: what the pipelines record reaches the report whole (no filtering copy in the metadata back-fill), under the path that was written, and the report models' validators only check.",
+    "C04": "Round 5: each selected codemod executes once (selection keyed by codemod id) -- a second execution sees rewritten files in a real run and the originals in a dry run.",
+    "C05": "Round 5: neither enumerator of project files descends into symlinked directories; a finding's file is the document's value verbatim (no decoding / normalisation).",
+    "C06": "Round 5: the SARIF / DefectDojo readers add every result of the list (no per-result filter); a finding's file is taken verbatim.",
+    "C07": "Round 5: the files visited derive from the selected paths, never from the detector's findings alone.",
+    "C08": "Round 5: a fold of two calls compares identifiers of nodes its own matcher restricts to plain names (or deep_equals), never a lossy projection of the receivers.",
+    "C09": "Round 5: memoised members read only state that nothing changes after construction; run-wide listings do not depend on content, size or time; every Finding owns its Rule object while the report-time back-fill renames rules in place.",
+    "C10": "Round 5: a broad handler on the rewrite path either re-raises or lists the file as failed (marking one finding unfixed is not enough); one unreadable manifest does not end the discovery of the others.",
+    "C11": "Round 5: no process-wide setting (recursion limit, cwd, environment, ...) is changed from worker threads; the findings lookup never probes the file system.",
+    "C12": "Round 5: every result-file option reaches the tool map and later options add to, not replace, an entry; the readers add every result and keep file names verbatim; each Finding owns its Rule.",
+    "C13": "Round 5: the findings handed to the transformer are exactly the lookup's result (no line filtering before the gates).",
+    "C14": "Round 5: parser and writer of one manifest read it the same way (same library options; the writer follows names only if the parser does); one unreadable manifest does not hide the others.",
+    "C15": "Round 5: report-model validators only check; a ChangeSet is not edited after construction; each Finding owns its Rule.",
+    "C16": "Round 5: detector positions are never taken from a scan that pre-dates an earlier rewrite of the run.",
+    "C17": "Round 5: the registry's listings are not memoised over a registry that is still being filled; the argument parser keeps argparse's default token handling.",
+    "C18": "Round 5: broad handlers around rewriting code do not swallow; an import alias decides what a name resolves to; file names of findings are verbatim.",
+    "C19": "Round 5: lexical SAX callbacks re-emit their parameters verbatim; a per-line helper returns the line or one substitution over the unmodified line.",
+    "C20": "Round 5: the --output path is acted on only inside write_report; values taken from Optional-valued containers are tested before use; default argparse token handling.",
+}
+
+
 def main():
     props = [json.loads(l)["id"] for l in (VERIF / "properties.jsonl").read_text().splitlines() if l.strip()]
     checks = []
@@ -256,7 +279,7 @@ def main():
                 "evidence_file": f"evidence/{pid}.json",
                 "replay_cmd_template": f"/venv/bin/python sa/run.py {pid} --replay {{path}}",
                 "engine": "sa",
-                "level_claimed": {"category": "other", "text": c["text"] + (" " + EXTRA[pid] if pid in EXTRA else ""), "design_ref": c["ref"]},
+                "level_claimed": {"category": "other", "text": c["text"] + (" " + EXTRA[pid] if pid in EXTRA else "") + (" " + EXTRA5[pid] if pid in EXTRA5 else ""), "design_ref": c["ref"]},
                 "level_note": c["note"],
                 "technique": c["technique"],
             }
